@@ -172,6 +172,20 @@ def install():
                 raise KeyError("getpwuid(): uid not found: 12345")
             return "simuser"
 
+    # F6: generated source names.  The original generator runs unless a collision is scripted for this draw.
+    for modname in ("kafe2.fit._base.container", "kafe2.fit.multi.fit"):
+        _m = importlib.import_module(modname)
+        _ra = _m.random_alphanumeric
+
+        def _random_alphanumeric(size, _ra=_ra):
+            w = _CURRENT[0]
+            if w is not None and w.active and w.collide_names:
+                w.n_collisions_fired += 1
+                return w.collide_names.pop(0)
+            return _ra(size)
+
+        _m.random_alphanumeric = _random_alphanumeric
+
     _orig["repr.datetime"] = _repr_base.datetime
     _repr_base.datetime = _DT
     _orig["repr.getpass"] = _repr_base.getpass
@@ -193,6 +207,8 @@ class SimWorld(object):
         self.active = False
         self.n_order_choices = 0
         self.getuser_raises = 0
+        self.collide_names = []
+        self.n_collisions_fired = 0
         self.warnings = []
         self.stdout = None
         self._saved = {}
